@@ -1154,7 +1154,145 @@ def gen_calculator(tier, seed):
                "mode": rnd.choice(["T", "C", "CR"]), "steps": steps}
 
 
+# ------------------------------------------------------------------------------------------------ optimiser write-back
+OPT_MODELS = {
+    "HKY85": (("HKY85", {}), 1),
+    "GTR": (("GTR", {}), 1),
+    "HKY85/rate-gamma2": (("HKY85", {"ordered_param": "rate", "distribution": "gamma"}), 2),
+    "HKY85/rate-gamma4": (("HKY85", {"ordered_param": "rate", "distribution": "gamma"}), 4),
+    "HKY85/rate-free2": (("HKY85", {"ordered_param": "rate", "distribution": "free"}), 2),
+    "HKY85/rate-free3": (("HKY85", {"ordered_param": "rate", "distribution": "free"}), 3),
+    "HKY85/kappa-free2": (("HKY85", {"ordered_param": "kappa", "distribution": "free"}), 2),
+    "HKY85/kappa-partitioned2": (("HKY85", {"partitioned_params": "kappa", "distribution": "free"}), 2),
+    "GN": (("GN", {}), 1),
+}
+
+
+def _opt_build(mid, tips, aln):
+    from cogent3 import get_model, make_tree
+    (name, kw), bins = OPT_MODELS[mid]
+    lf = get_model(name, **kw).make_likelihood_function(make_tree(TREES[tips]), **({"bins": bins} if bins > 1 else {}))
+    lf.set_alignment(make_aln(tips, aln))
+    return lf
+
+
+def _opt_apply(lf, op, st):
+    k = op[0]
+    if k == "opt":
+        lf.optimise(local=op[2], max_evaluations=op[1], limit_action="ignore", show_progress=False,
+                    **({} if op[2] else {"global_tolerance": 1.0, "seed": 7}))
+    elif k == "rule":
+        lf.set_param_rule(op[1], init=op[2], **({"edge": op[3]} if len(op) > 3 else {}))
+    elif k == "const":
+        lf.set_param_rule(op[1], value=op[2], is_constant=True)
+    elif k == "mprobs":
+        lf.set_motif_probs(PI[op[1]])
+    elif k == "aln":
+        st["aln"] = op[1]
+        lf.set_alignment(make_aln(st["tips"], op[1]))
+    else:
+        raise ValueError(op)
+
+
+def run_optimise_fresh(case):
+    """after every step: lf.lnL == lnL of a newly built function given lf's exported rules and current alignment"""
+    warnings.filterwarnings("ignore")
+    mid, tips = case["cfg"]
+    st = {"tips": tips, "aln": 0}
+    try:
+        lf = _opt_build(mid, tips, 0)
+        float(lf.lnL)
+    except Exception:
+        return ("skip",)
+    for i, op in enumerate(case["ops"]):
+        try:
+            _opt_apply(lf, op, st)
+        except Exception as e:
+            return (f"step-raises-{type(e).__name__}", f"step {i} {op}: {type(e).__name__}: {str(e)[:200]}")
+        try:
+            lnl, nfp = float(lf.lnL), int(lf.nfp)
+            rules = lf.get_param_rules()
+            # settings that are optimised but are not user parameters (the partition behind a free distribution of a
+            # parameter over bins): part of "the same final settings", read and set by their definition name
+            hidden = {n: numpy.array(lf.get_param_value(n)) for n, d in lf.defn_for.items()
+                      if n.endswith("_partition") and not getattr(d, "user_param", True)}
+            lf2 = _opt_build(mid, tips, st["aln"])
+            lf2.apply_param_rules(rules)
+            lnl_export, nfp2 = float(lf2.lnL), int(lf2.nfp)
+            for n, v in hidden.items():
+                lf2.set_param_rule(n, init=v)
+            lnl2 = float(lf2.lnL)
+        except Exception as e:
+            return (f"rebuild-raises-{type(e).__name__}", f"after step {i} {op}: {type(e).__name__}: {str(e)[:200]}")
+        try:
+            # a calculator made now is evaluated from the settings the function holds, in one sweep
+            held = float(lf.make_calculator().testfunction())
+        except Exception as e:
+            return (f"make_calculator-raises-{type(e).__name__}", f"after step {i} {op}: {type(e).__name__}: {str(e)[:200]}")
+        if not lnl_close(lnl, held, 1e-9):
+            return (f"lnL-vs-calculator-from-held-settings-after-{op[0]}",
+                    f"after step {i} {op}: the function reports lnL {lnl!r}; a calculator newly made from the settings it "
+                    f"holds evaluates to {held!r}")
+        if not lnl_close(lnl, lnl2, 1e-9):
+            return (f"lnL-after-{op[0]}", f"after step {i} {op}: the function reports lnL {lnl!r}; a new function given "
+                                          f"the same final settings (exported rules{' + ' + '/'.join(hidden) if hidden else ''}): {lnl2!r}")
+        if nfp != nfp2:
+            return (f"nfp-after-{op[0]}", f"after step {i} {op}: nfp {nfp}; new function: {nfp2}")
+        if not lnl_close(lnl, lnl_export, 1e-9):
+            what = "export-omits-hidden-partition" if hidden else "export-lnL"
+            return (f"{what}-after-{op[0]}", f"after step {i} {op}: lnL {lnl!r}; a new function given only "
+                                             f"get_param_rules(): {lnl_export!r}; not exported: {sorted(hidden)}")
+    return None
+
+
+def contract_optimise_fresh(case):
+    res = run_optimise_fresh(case)
+    if res is None:
+        return ("ok", any(o[0] == "opt" for o in case["ops"]))
+    if res[0] == "skip":
+        return ("skip",)
+    kinds = ">".join(o[0] for o in case["ops"])
+    return ("fail", f"optimise_fresh/{case['cfg'][0]}/{res[0]}/{kinds}", f"{json.dumps(case)}: {res[1]}")
+
+
+def gen_optimise_fresh(tier, seed):
+    thorough = tier == "thorough"
+    for mid in OPT_MODELS:
+        par = "kappa" if mid.startswith("HKY85") and "kappa-" not in mid else None
+        seqs = [
+            [["opt", 25, True]],
+            [["opt", 12, True], ["opt", 12, True]],
+            [["rule", "length", 0.4], ["opt", 20, True]],
+            [["opt", 20, True], ["rule", "length", 0.05, "a"]],
+            [["opt", 20, True], ["aln", 1]],
+            [["opt", 15, True], ["mprobs", 1], ["opt", 10, True]],
+            [["opt", 60, False]],
+        ]
+        if par:
+            seqs += [[["rule", par, 3.0], ["opt", 20, True]], [["opt", 15, True], ["const", par, 2.0], ["opt", 10, True]]]
+        for tips in ((3, 4) if thorough else (4,)):
+            for ops in seqs:
+                yield {"cfg": [mid, tips], "ops": ops}
+            if thorough:
+                for ev in (5, 40, 100):
+                    yield {"cfg": [mid, tips], "ops": [["opt", ev, True], ["opt", ev, True], ["aln", 1], ["opt", ev, True]]}
+
+
 BOUNDED = {
+    "optimise_fresh": {
+        "gen": gen_optimise_fresh, "contract": contract_optimise_fresh,
+        "functions": ["LikelihoodFunction.optimise", "ParameterController.update_from_calculator / update_intermediate_values",
+                      "get_param_rules / apply_param_rules", "WeightedPartitionDefn / PartitionDefn (bin probabilities)"],
+        "bound": "9 models: HKY85, GTR, GN, HKY85 with 2 / 4 gamma rate classes, with 2 / 3 free rate classes, with kappa in 2 "
+                 "free classes (ordered / partitioned); 4-tip tree (thorough also 3-tip); 7-9 histories each mixing real "
+                 "optimiser runs (local Powell with 10-25 evaluations, one global run) with rules, constants, motif "
+                 "probabilities and an alignment swap; thorough: longer runs",
+        "rule": "after every step the reported lnL equals (a) the value of a calculator newly made from the settings the "
+                "function holds, (b) lnL and nfp of a newly built function given the exported rules, the partitions "
+                "behind free distributions (not exported: finding C07-K2) and the alignment in force, (c) the same given "
+                "the exported rules only (rtol 1e-9); non-trivial when the history has an optimiser run",
+        "shards": 16,
+    },
     "history": {
         "gen": gen_history, "contract": contract_history,
         "functions": ["LikelihoodFunction.lnL / get_log_likelihood", "ParameterController.set_param_rule",
